@@ -193,7 +193,19 @@ inline std::string leak_key(const std::string &rep) {
         std::string rest = line.substr(in_ + 4); size_t sp = rest.rfind(' '); if (sp == std::string::npos) continue; std::string fn = rest.substr(0, sp), loc = rest.substr(sp + 1);
         if (loc.find("/cola/") != std::string::npos && loc.find("/verif/") == std::string::npos && frames.size() < 2) frames.push_back(clean(fn));
     }
-    if (frames.empty()) return "leak:harness-or-unknown";
+    if (frames.empty()) {
+        // the directly leaked object was allocated by the caller (e.g. a pin handed to its shape): use the first block that has library frames
+        std::istringstream in2(rep); bool blk = false;
+        while (std::getline(in2, line)) {
+            if (line.find("leak of") != std::string::npos) { if (!frames.empty()) break; blk = true; continue; }
+            if (!blk) continue;
+            size_t h = line.find('#'), in_ = line.find(" in "); if (h == std::string::npos || in_ == std::string::npos) continue;
+            std::string rest = line.substr(in_ + 4); size_t sp = rest.rfind(' '); if (sp == std::string::npos) continue; std::string fn = rest.substr(0, sp), loc = rest.substr(sp + 1);
+            if (loc.find("/cola/") != std::string::npos && loc.find("/verif/") == std::string::npos && frames.size() < 2) frames.push_back(clean(fn));
+        }
+        if (frames.empty()) return "leak:harness-or-unknown";
+        return "leak:(held-by)" + frames[0] + (frames.size() > 1 ? ">" + frames[1] : "");
+    }
     return "leak:" + frames[0] + (frames.size() > 1 ? ">" + frames[1] : "");
 }
 
@@ -242,6 +254,7 @@ inline int harness_main(int argc, char **argv, const char *name, CaseFn fn) {
     signal(SIGABRT, on_fatal);
 
     long evaluations = 0, held = 0, violated = 0, inconclusive = 0, nontrivial = 0, c15n = 0;
+    bool leakRestart = false; long endedAt = a.to;
     std::map<std::string, long> obs, gens, gensNt, incReasons, vioKeys;
     std::map<std::string, double> obsmax;
     long emitted = 0;
@@ -280,11 +293,16 @@ inline int harness_main(int argc, char **argv, const char *name, CaseFn fn) {
             int leaked = __lsan_do_recoverable_leak_check();
             fflush(stderr); dup2(saved, 2); close(saved);
             if (leaked) {
+                leakRestart = true;   // LeakSanitizer repeats every earlier leak in each later report: this process ends after the case, the driver restarts behind it
                 std::string rep; if (fd >= 0) { lseek(fd, 0, SEEK_SET); char buf[4096]; ssize_t k; while ((k = read(fd, buf, sizeof buf)) > 0) rep.append(buf, (size_t)k); }
                 fputs(rep.c_str(), stderr);
-                r.c15.push_back({leak_key(rep), JObj().str("report", rep.substr(0, 3000)).done()});
+                // a router/solver/layout an exception unwound through was abandoned on purpose (its state is undefined): what it held is not a leak finding
+                if (r.c15.empty()) r.c15.push_back({leak_key(rep), JObj().str("report", rep.substr(0, 3000)).done()});
             }
             if (fd >= 0) close(fd);
+            // whatever an exception left behind may still be referenced from dead stack slots and only show up as leaked one case later:
+            // never let a later case inherit it
+            if (!r.c15.empty()) leakRestart = true;
         }
 #endif
         evaluations++;
@@ -322,11 +340,12 @@ inline int harness_main(int argc, char **argv, const char *name, CaseFn fn) {
             write_all(g_outfd, line.data(), line.size());
             emitted++;
         }
+        if (leakRestart) { endedAt = idx + 1; break; }
     }
     g_curcase = -1;
     fclose(dig);
     JObj s;
-    s.str("t", "summary").str("mode", a.mode).i("from", a.from).i("to", a.to).i("evaluations", evaluations).i("held", held)
+    s.str("t", "summary").str("mode", a.mode).i("from", a.from).i("to", leakRestart ? endedAt : a.to).b("partial", leakRestart).i("evaluations", evaluations).i("held", held)
         .i("violated", violated).i("inconclusive", inconclusive).i("nontrivial", nontrivial).i("c15", c15n);
     auto dump = [](const std::map<std::string, long> &m) { JObj o; for (auto &kv : m) o.i(kv.first, kv.second); return o.done(); };
     s.raw("obs", dump(obs)).raw("gens", dump(gens)).raw("gens_nt", dump(gensNt)).raw("inconclusive_reasons", dump(incReasons)).raw("violation_keys", dump(vioKeys));
@@ -335,6 +354,7 @@ inline int harness_main(int argc, char **argv, const char *name, CaseFn fn) {
     write_all(g_outfd, line.data(), line.size());
     close(g_outfd);
     close(g_progfd);
+    if (leakRestart) { fflush(nullptr); _exit(25); }   // skip the end-of-process leak check: it would repeat the report
     return 0;
 }
 
